@@ -121,8 +121,8 @@ func c06(r *ev.Result, tier string) {
 	brokerRacePass(r)
 	/* A long series of foreign requests next to a half-attached one. */
 	if isQuick(tier) {
-		c06Spray(r, 150000)
+		c06Spray(r, 400000)
 	} else {
-		c06Spray(r, 1200000)
+		c06Spray(r, 2000000)
 	}
 }
